@@ -232,16 +232,41 @@ def fine_traces(tier, v, rng):
     return {"fine_traces": len(traces), "fine_traces_accepted": n_ok, "sample": traces[0] if traces else None}
 
 
+TLAPS_STDLIB = "/opt/veriftools/tlapm/lib/tlapm/stdlib"
+TLAPS_MODULES = ("TLAPS.tla", "SequenceTheorems.tla", "FunctionTheorems.tla", "NaturalsInduction.tla", "WellFoundedInduction.tla", "FiniteSetTheorems.tla")
+
+
+def prove_mutex():
+    """TLAPS: mutual exclusion is an invariant of ContainerConc for every instance (ContainerConcProofs.tla)"""
+    import re
+    import tempfile
+    d = tempfile.mkdtemp(prefix="tlaps-", dir=core.scratch())
+    for f in ("ContainerConc.tla", "ContainerConcProofs.tla"):
+        shutil.copy(os.path.join(core.SPEC, f), d)
+    p = core.sh(["tlapm", "--threads", str(min(8, core.NCPU)), "ContainerConcProofs.tla"], cwd=d, check=False, timeout=1800, env=dict(os.environ))
+    m = re.search(r"All (\d+) obligations? proved", p.stdout)
+    if not m:
+        raise core.InfraError("TLAPS could not discharge the proof of mutual exclusion:\n" + p.stdout[-2000:])
+    return int(m.group(1))
+
+
 def run_c20(tier):
     pid = "C20"
     t0 = time.time()
     rng = random.Random(core.seed())
     v = core.Verdict(pid)
-    # ---- R1
+    obligations = prove_mutex()
+    # ---- R1 (the instances are also checked against the proof's inductive invariant and its assumption on the constants)
     tlc = {}
     states = gen = 0
+    stdlib = {}
+    if all(os.path.exists(os.path.join(TLAPS_STDLIB, m)) for m in TLAPS_MODULES):
+        stdlib = {m: open(os.path.join(TLAPS_STDLIB, m)).read() for m in TLAPS_MODULES}
     for scn in ("two", "three", "params"):
-        r = core.run_tlc("MC_ContainerConc.tla", "MC_ContainerConc_%s.cfg" % scn, timeout=1800, want_emits=False)
+        if stdlib:
+            r = core.run_tlc("MC_ContainerConcInv.tla", "MC_ContainerConcInv_%s.cfg" % scn, timeout=1800, want_emits=False, extra_files=stdlib)
+        else:
+            r = core.run_tlc("MC_ContainerConc.tla", "MC_ContainerConc_%s.cfg" % scn, timeout=1800, want_emits=False)
         if r.violation:
             raise core.InfraError("TLC: ContainerConc/%s violates a design invariant:\n%s" % (scn, r.raw_tail[-2000:]))
         tlc[scn] = {"states": r.states, "generated": r.generated}
@@ -415,7 +440,10 @@ def run_c20(tier):
                 "configurations (model-enumerated graphs x scopes from MC_Container/%s and hand-made ones with multi-chunk patterns, env functions, "
                 "derived contextual scope, tags, decorators, getters) x goroutine counts %s x %d runs of 3 rounds of 4 random operations per goroutine "
                 "over 3 contexts, under the race detector; distinct_nontrivial = configuration x goroutine count" % (len(live), fam, Gs, reps),
-        "exhaustive": False, "tlc_instances": tlc, "fine_grained_binding": {k: x for k, x in fine.items() if k != "sample"}, "operations_returned": n_ops, "trace_events": len(lines),
+        "exhaustive": False, "tlc_instances": tlc,
+        "tlaps": {"module": "ContainerConcProofs.tla", "theorem": "Inv (typing, a frame inside a critical section belongs to the goroutine the lock "
+                  "table names, no goroutine holds one entry twice) is inductive for every instance; Inv => MutualExclusion",
+                  "obligations": obligations, "discharged": obligations, "instances_checked_against_Inv_by_TLC": bool(stdlib)}, "fine_grained_binding": {k: x for k, x in fine.items() if k != "sample"}, "operations_returned": n_ops, "trace_events": len(lines),
         "known_findings_hit": {k: n for k, (f, n) in v.known_hit.items()},
     }, time.time() - t0, violations=len(v.violations), assumptions=[
         "interleavings of the real program are sampled by the Go scheduler, not enumerated; the model explores them exhaustively only on its own abstraction",
